@@ -39,7 +39,8 @@ BASE_TRUST = "Trusted: go/ssa construction, the gosym interpreter (validated on 
 CHECKS["C03"] = dict(
     level_text="Within the bounds the solver shows that every path the real validators accept is lexically strictly inside the destination (Join(dest,p)=dest/p, component-wise well formed) and that an accepted hard link always names an earlier accepted regular entry; hostile packet scripts against a destination with outward symlinks are decided on the model file system where registered.",
     level_note="Bounds: paths <=3 (quick) / <=5 (thorough) symbolic bytes; link scripts of 2 (quick) / 3 (thorough) entries with names <=2 bytes. " + BASE_TRUST,
-    assumptions=["dest is an absolute clean path that is not reached through symlinks", "paths longer than the bound and Windows path forms are outside the claim"],
+    assumptions=["dest is an absolute clean path that is not reached through symlinks", "paths longer than the bound and Windows path forms are outside the claim",
+                 "hostile scripts: paths/link names are drawn from fixed candidate lists (symbolic path bytes are covered at validator level), the peer hangs up after its first offending packet; model file system, one schedule"],
     obligations=[
         ob("VH_C03_join", dict(N=n), Q, covers=["accepted", "rejected"] if n > 0 else ["rejected"], bounds="all byte strings of length %d" % n) for n in range(0, 4)] + [
         ob("VH_C03_join", dict(N=n), T, covers=["accepted", "rejected"] if n > 0 else ["rejected"], bounds="all byte strings of length %d" % n) for n in range(0, 6)] + [
@@ -47,6 +48,10 @@ CHECKS["C03"] = dict(
         ob("VH_C03_join2", dict(N=3), T, covers=["accepted", "rejected"], bounds="dir and child names of 1..3 bytes"),
         ob("VH_C03_links", dict(K=2, N=2), Q, covers=["order-rejected", "link-rejected", "link-accepted", "all-accepted"], bounds="2 entries, path 1..2 bytes, linkname 0..2 bytes, class dir/file/symlink"),
         ob("VH_C03_links", dict(K=3, N=2), T, covers=["order-rejected", "link-rejected", "link-accepted", "all-accepted"], bounds="3 entries, path 1..2 bytes, linkname 0..2 bytes"),
+        ob("VH_C03_hostile", dict(K=1), covers=["offending", "link-to-unknown", "unrequested-data", "legal-accepted"], bounds="1 hostile packet: 13 candidate paths x 6 link names x fully symbolic 32-bit mode, or DATA with symbolic id; destination with symlinks to an outside file and directory; model FS"),
+        ob("VH_C03_hostile", dict(K=2, R=1), Q, covers=["offending", "link-to-unknown", "unrequested-data", "legal-accepted"], bounds="2 hostile packets over reduced candidate lists (5 paths x 3 link names), symbolic modes"),
+        ob("VH_C03_hostile", dict(K=2), T, covers=["offending", "link-to-unknown", "unrequested-data", "legal-accepted"], bounds="2 hostile packets over the full candidate lists"),
+        ob("VH_C03_hostile", dict(K=3, R=1), T, covers=["offending", "link-to-unknown", "unrequested-data", "legal-accepted"], bounds="3 hostile packets over reduced candidate lists", max_paths=400000),
     ],
 )
 
@@ -82,18 +87,20 @@ CHECKS["C19"] = dict(
         ob("VH_C19_alloc_step", dict(K=3), T, covers=["appended", "extended"], bounds="3 chunks, symbolic len/cap"),
         ob("VH_C19_alloc_seq", dict(K=3), Q, covers=["done"], bounds="3 allocations, symbolic sizes"),
         ob("VH_C19_alloc_seq", dict(K=5), T, covers=["done"], bounds="5 allocations, symbolic sizes"),
-        ob("VH_C19_metaonly", dict(MAXB=1), Q, covers=["requested", "done"], bounds="source [.fsutil-metadata?, d, d/f?, e?], every selector, files <=1 symbolic byte, prior dest in {empty, stale file, old listing file, listing-name symlink}; model FS"),
+        ob("VH_C19_metaonly", dict(MAXB=1), Q, covers=["requested", "done"], bounds="source [.fsutil-metadata?, d, d/f?, d2?, d2/g?], every selector, files <=1 symbolic byte, prior dest in {empty, stale file, old listing file, listing-name symlink}; model FS"),
+        ob("VH_C19_metaonly", dict(MAXB=1, E=1), T, covers=["requested", "done"], bounds="as quick plus a further top-level entry e (file or directory)"),
         ob("VH_C19_metaonly", dict(MAXB=2), T, covers=["requested", "done"], bounds="as quick with files <=2 symbolic bytes"),
     ],
 )
 
 CHECKS["C09"] = dict(
-    level_text="The solver proves, within the name-length bounds, the order lemma that turns 'pre-order walk over bytewise-sorted listings' into 'strictly ascending protocol order'; stat construction and walk obligations are added where registered.",
+    level_text="The solver proves, within the name-length bounds, the order lemma that turns 'pre-order walk over bytewise-sorted listings' into 'strictly ascending protocol order'; and the real NewFS/Walk/mkstat/setUnixOpt code is executed on model-FS trees whose names sort differently bytewise and path-wise, with symbolic metadata and every hard-link grouping: each entry once, root never, ascending protocol order, stat equal to lstat/readlink, first member of an inode group is the file and later members name it.",
     level_note="Bounds: directory prefix <=2 (quick) / <=3 (thorough) bytes, sibling names 1..2 (quick) / 1..3 (thorough) bytes, one-byte tails. The induction over tree depth is a stated hand argument; filepath.WalkDir's pre-order/sorted contract is assumed. " + BASE_TRUST,
     assumptions=["os.ReadDir returns names sorted bytewise and filepath.WalkDir visits pre-order (stdlib contract)"],
     obligations=[
         ob("VH_C09_order_lemma", dict(ND=2, NN=2), Q, covers=["done"], bounds="|d|<=2, sibling names 1..2 bytes"),
         ob("VH_C09_order_lemma", dict(ND=3, NN=3), T, covers=["done"], bounds="|d|<=3, sibling names 1..3 bytes"),
+        ob("VH_C09_walk", {}, covers=["done", "hardlink"], bounds="model-FS tree {a/, a/x, a-b, a.c, b?}: a-b regular/symlink/char device, every hard-link grouping of the regular files, symbolic permission bits/uid/gid"),
     ],
 )
 
